@@ -125,6 +125,11 @@ class Lane(LaneBase):
     def signature(self, case, failure):
         return 'C12:' + hashlib.sha1(failure.split(':')[1][:40].encode()).hexdigest()[:12] if ':' in failure else 'C12:x'
 
+    def widen(self, case):
+        if 'ops' in case and isinstance(case.get('ops'), list) and case.get('kind', 'hist') == 'hist':
+            return histories.widen_history(case)
+        return []
+
     def shrink(self, case, still_fails):
         if case.get('kind') != 'hist':
             return case
